@@ -176,7 +176,45 @@ pub fn aborted_operations(which: u32) {
     }
 }
 
-/// the share of cases that is preceded by a round of aborted operations: a function of the case's tokens
+/// Iterators of the library that stay alive ACROSS cases on this thread and are polled one step before a share of the cases (and
+/// re-created when exhausted): calls into the library interleave with the polling of unrelated, half-consumed iterators — two
+/// merges, a sorted stream that still owns its runs, a walk over a long-lived index. Independent iterators must not interfere.
+struct Bystanders {
+    merge: Box<dyn Iterator<Item = GenomicRange>>,
+    graph: Box<dyn Iterator<Item = BedGraph<i64>>>,
+    sorted: Box<dyn Iterator<Item = bool>>,
+    depth: Box<dyn Iterator<Item = u64>>,
+}
+fn bystander_recs(n: u64) -> Vec<GenomicRange> {
+    let names = super::common::CHROMS;
+    let mut v: Vec<GenomicRange> = (0..n).map(|i| GenomicRange::new(names[(i / 40 % 3) as usize].to_string(), 4 * (i % 40), 4 * (i % 40) + 2 + i % 5)).collect();
+    v.sort_by(|a, b| a.compare(b));
+    v
+}
+fn new_bystanders() -> Bystanders {
+    let recs = bystander_recs(120);
+    let bg: Vec<BedGraph<i64>> = recs.iter().map(|g| BedGraph::new(g.chrom().to_string(), g.start(), g.end(), 2)).collect();
+    let sorted: Box<dyn Iterator<Item = bool>> = match ExternalSorterBuilder::new().with_chunk_size(7).num_threads(1).build() {
+        Ok(s) => match s.sort((0..60u64).rev().collect::<Vec<u64>>()) { Ok(it) => Box::new(it.map(|x| x.is_ok())), Err(_) => Box::new(std::iter::empty()) },
+        Err(_) => Box::new(std::iter::empty()),
+    };
+    let l: &'static Lapper<u64, u64> = Box::leak(Box::new(Lapper::new((0..30u64).map(|i| Interval { start: 3 * i, stop: 3 * i + 5, val: i }).collect())));
+    Bystanders { merge: Box::new(merge_sorted_bed(recs)), graph: Box::new(merge_sorted_bedgraph(bg)), sorted, depth: Box::new(l.depth().map(|r| r.val)) }
+}
+thread_local! { static BYSTANDERS: std::cell::RefCell<Option<Bystanders>> = std::cell::RefCell::new(None); }
+fn poll_bystanders() {
+    BYSTANDERS.with(|b| {
+        let mut b = b.borrow_mut();
+        if b.is_none() { *b = Some(new_bystanders()); }
+        let done = { let x = b.as_mut().unwrap(); let a = x.merge.next().is_none(); let c = x.graph.next().is_none(); let d = x.sorted.next().is_none(); let e = x.depth.next().is_none(); a && c && d && e };
+        if done { *b = None; }
+    });
+}
+
+/// the share of cases that is preceded by a round of aborted operations (and by one step of the bystander iterators): a function
+/// of the case's tokens
 pub fn maybe_abort(t: &[String], which: u32) {
-    if super::common::mode_of(t) % 4 == 1 { aborted_operations(which); }
+    let m = super::common::mode_of(t);
+    if m % 4 == 1 { aborted_operations(which); }
+    if m % 3 == 0 { let _ = catch_unwind(AssertUnwindSafe(poll_bystanders)); }
 }
